@@ -656,9 +656,6 @@ package godi
 //@   requires has_root_scope: p.rootScope != nil && p.rootScope.rootProvider == p
 //@   requires has_analyzer: p.analyzer != nil
 //@   requires typed_nil_excluded: typedNilExcluded(p.graph)
-//@   requires degrees_fresh: dependentsOK(p.graph)
-//@   requires degrees_matched: matched(p.graph)
-//@   requires deps_mirror_edges: depsMirrorEdges(p.graph)
 //@   ghost order []*graph.Node
 //@   ghost pos seq[int]
 //@   at after assign sorted#1 : ghost order := sorted
